@@ -3,8 +3,9 @@
 Decided: dipole translation behaviour (invariant for neutral molecules, shift = charge x displacement for ions), Etot = Eelec + Enuc (+ active excitation energy), Hf = Etot - Eiso + atomic heats (the spec's own
 MOPAC table), gap = LUMO - HOMO of ascending orbital energies (per spin for UHF), charges sum to the
 molecular charge and follow from the density diagonal, electron count; and the currency of every
-published attribute (all from the same call).  Not decided: orbital energies are eigenvalues of the
-reported Fock operator (C03's re-diagonalisation predicate covers the density), dipole formula.
+published attribute (all from the same call); every reported (orbital, energy) pair is an eigenpair of the Fock matrix the
+solver returned; the dipole equals the one implied by the published charges, coordinates and density (point charges + s-p
+hybridisation), turns with the molecule and shifts by charge x displacement.
 
 TLC checks Publish (paths x published attribute sets, generation stamps: Current) and then evaluates
 the linear identities of Publish on fixed-point integers (1e-6 eV / 1e-6 e) logged from the real API
@@ -91,6 +92,6 @@ def main(tier):
             "units": "1e-6 eV / 1e-6 e; rounding allowances: 3 (energy sums), 3+natoms (heat), 2 (gap), natoms (charge sum), 4 (per-atom charge)",
         }
         return rep.finish(cov, assumptions=["identities are evaluated by TLC on integers logged from the attributes after the second of two calls on one molecule object",
-                                            "not decided: e_mo are eigenvalues of the reported Fock operator; dipole formula"])
+                                            "the Fock matrix is the one the solver returned (captured at the scf_loop boundary); products of the dipole formula are formed by the driver and summed by TLC"])
     finally:
         common.rm(scratch)
